@@ -51,6 +51,27 @@ Example C20_mutually_recursive_response :
   case_leaf mutual_case "b.a.title" = None.
 Proof. exact mutual_facts. Qed.
 
+(* What the mock prints for an RPC depends on the file and the response type only: RPCs of one service
+   or of several services of the file that answer with the same message get the same assignments,
+   obligations, value sets and defect tags. *)
+Theorem C20_same_response_same_walk : forall sc ex ft fl md1 md2,
+  md_out md1 = md_out md2 -> rpc_walk sc ex ft fl md1 = rpc_walk sc ex ft fl md2.
+Proof. exact same_response_same_walk. Qed.
+Print Assumptions C20_same_response_same_walk.
+(* three services in one file sharing response messages (User: four RPCs in three services): the mock
+   builds with the rest of the package and every RPC answers with the declared examples *)
+Example C20_services_sharing_a_response :
+  let '(sc, _, _) := shared_response_case in accepted sc = true /\
+  case_defects shared_response_case = Some [] /\ case_builds shared_response_case = Some true /\
+  option_map (@List.length _) (case_walks shared_response_case) = Some 8 /\
+  case_rpc_leaf shared_response_case "UserService.GetUser" "name" = Some [s "Ann"; s "Bob"] /\
+  case_rpc_leaf shared_response_case "UserService.FindUser" "name" = Some [s "Ann"; s "Bob"] /\
+  case_rpc_leaf shared_response_case "AdminService.LookupUser" "name" = Some [s "Ann"; s "Bob"] /\
+  case_rpc_leaf shared_response_case "AuditService.LastUser" "age" = Some [s "42"] /\
+  case_rpc_leaf shared_response_case "AdminService.Stat" "user.name" = Some [s "Ann"; s "Bob"] /\
+  case_rpc_leaf shared_response_case "AuditService.Audit" "by[sample_key].name" = Some [s "Ann"; s "Bob"].
+Proof. exact shared_response_facts. Qed.
+
 Example C20_nonvacuous :
   let '(sc, _, _) := good_mock in accepted sc = true /\
   case_defects good_mock = Some [] /\ case_builds good_mock = Some true /\
